@@ -315,7 +315,10 @@ func Mutations(root any, o MutOpts) []Mutation {
 							if !ok {
 								return r
 							}
-							mm := m.(map[string]any)
+							mm, ok := m.(map[string]any)
+							if !ok {
+								return r
+							}
 							v := mm[kk]
 							delete(mm, kk)
 							mm[nkk] = v
@@ -326,7 +329,10 @@ func Mutations(root any, o MutOpts) []Mutation {
 							if !ok {
 								return r
 							}
-							mm := m.(map[string]any)
+							mm, ok := m.(map[string]any)
+							if !ok {
+								return r
+							}
 							mm[nkk] = Clone(mm[kk])
 							return r
 						})
@@ -336,7 +342,10 @@ func Mutations(root any, o MutOpts) []Mutation {
 					a, b := ks[0], ks[len(ks)-1]
 					add("swapvals", pp, func(r any) any {
 						m, _ := Get(r, pp)
-						mm := m.(map[string]any)
+						mm, ok := m.(map[string]any)
+						if !ok {
+							return r
+						}
 						mm[a], mm[b] = mm[b], mm[a]
 						return r
 					})
